@@ -37,9 +37,10 @@ def jobs(tier, seed):
         g8sizes = list(range(0, 161))
     x1sizes = list(range(0, 41)) if tier == "quick" else list(range(0, 161))
     for s in x1sizes:
-        js.append(Job("xor1.size%d" % s, "xor_one_into_one_constant_size", "c13_add_to_symbol.c", ["of_add_to_symbol"], repo_sources=[SYM],
-                      defines={"OFV_SIZE": s}, unwind=s // 8 + 10, timeout=300, mem_gb=3, status="bounded",
-                      bound="one run per size %d..%d; both alignments (0..7), contents, ghost byte symbolic" % (x1sizes[0], x1sizes[-1])))
+        for ta in range(8):
+            js.append(Job("xor1.size%d.align%d" % (s, ta), "xor_one_into_one_constant_size", "c13_add_to_symbol.c", ["of_add_to_symbol"], repo_sources=[SYM],
+                          defines={"OFV_SIZE": s, "OFV_TA": ta, "OFV_FA": (3 * ta + s + seed) % 8}, unwind=s // 8 + 10, timeout=300, mem_gb=4, status="bounded",
+                          bound="one run per (size %d..%d, target alignment 0..7); contents and ghost byte symbolic" % (x1sizes[0], x1sizes[-1])))
     for h, f, g in (("c13_add_from_multiple.c", "of_add_from_multiple_symbols", "xor_many_into_one"),
                     ("c13_add_to_multiple.c", "of_add_to_multiple_symbols", "xor_one_into_many")):
         for s in sizes:
